@@ -434,6 +434,25 @@ func L2ResultStatus() []MethodCase {
 			out = append(out, MethodCase{M: m2})
 		}
 	}
+	// required collection attributes of every kind in one result body (the service may leave any of
+	// them nil: by normalisation 1 that is the empty collection, and the response must still be
+	// what the document describes)
+	{
+		el := &TypeDef{Name: "RcElem", Kind: "result", Attrs: []*Attr{A("ea", P(KString)), A("eb", P(KInt))}, Required: []string{"ea"},
+			Views: []View{{Name: "default", Attrs: []string{"ea", "eb"}}}}
+		coll := &TypeDef{Name: "RcElemCollection", Kind: "collection", Collection: "RcElem"}
+		named := &TypeDef{Name: "RcItem", Kind: "type", Attrs: []*Attr{A("ia", P(KString))}, Required: []string{"ia"}}
+		m := ResultMethod(next(), []attrAt{
+			{A("id", P(KString)), LocBody, true},
+			{A("lines", User("RcElemCollection")), LocBody, true},
+			{A("tags", ArrT(P(KString))), LocBody, true},
+			{A("items", ArrT(User("RcItem"))), LocBody, true},
+			{A("weights", MapT(P(KString), P(KInt))), LocBody, true},
+			{A("extras", User("RcElemCollection")), LocBody, false},
+		}, 200)
+		m.Feat = map[string]string{"family": "L2-status", "status": "200-required-collections"}
+		out = append(out, MethodCase{M: m, Types: []*TypeDef{el, coll, named}})
+	}
 	// two success responses selected by a tag, every ordered pair of response SHAPES (what one
 	// response does with the body must not leak into the next)
 	shapes := []struct {
